@@ -1,9 +1,9 @@
 SPECIFICATION Spec
 CONSTANTS
-  Ids = {"A", "B", "C"}
-  InitUp = {"A", "B"}
-  Small = {}
-  Big = {"b1", "b2"}
+  Ids = {"A", "B", "C", "D"}
+  InitUp = {"A", "B", "C"}
+  Small = {"s1"}
+  Big = {}
   Fanout = 3
   TxLimit = 3
   SendList = "current"
